@@ -113,7 +113,7 @@ func C03(r *drv.Run) {
 	if !quick(r) {
 		n, ntext = 200000, 12
 	}
-	r.Rule = "programs from the union of all generators (core language, regex literals, named loops, whole line/word/file, every amount clause, replace commands) x multi-line inputs derived from the program (newline-heavy alphabet, \\r\\n, some non-ASCII). Plus the exhaustive capture shapes of C02 (first alternatives that fail, abandoned iterations, named loops over inner loops) on all texts over {a,b} up to length 4, and its last-path shapes (an optional capture on the path tried last) on all texts over {a,b,c} up to length 4; plus linear-time programs over long inputs (thousands of short lines, single lines of 6 000 and 70 000 bytes, CR LF line ends, matches spanning newlines; offsets beyond 65 536, line numbers beyond 2 000, columns beyond 5 000). Oracle: invariants recomputed from the input text alone on every reported match: bounds, Value == text[Start:End], order/non-overlap, consecutive MatchNumber (first number fixed by the amount clause), 1-based Line and byte Column of both ends from a newline index (columns: ASCII texts only), every string variable - recursively through named-loop maps - a substring of Value. Non-trivial = run returned >= 1 match; distinct by (program, text)."
+	r.Rule = "programs from the union of all generators (core language, regex literals, named loops, whole line/word/file, every amount clause, replace commands) x multi-line inputs derived from the program (newline-heavy alphabet, \\r\\n, some non-ASCII). Plus the exhaustive capture shapes of C02 (first alternatives that fail, abandoned iterations, named loops over inner loops) on all texts over {a,b} up to length 4, and its last-path shapes (an optional capture on the path tried last) on all texts over {a,b,c} up to length 4; plus linear-time programs over long inputs (thousands of short lines, single lines of 6 000 and 70 000 bytes, CR LF line ends, matches spanning newlines; offsets beyond 65 536, line numbers beyond 2 000, columns beyond 5 000; and three programs - among them `whole file`, one read of the whole input - on inputs of 1 MiB + 37, 2 MiB and 2 MiB + 600 bytes). Oracle: invariants recomputed from the input text alone on every reported match: bounds, Value == text[Start:End], order/non-overlap, consecutive MatchNumber (first number fixed by the amount clause), 1-based Line and byte Column of both ends from a newline index (columns: ASCII texts only), every string variable - recursively through named-loop maps - a substring of Value. Non-trivial = run returned >= 1 match; distinct by (program, text)."
 	r.Assumptions = []string{
 		"single-command programs (results of several commands are concatenated; C13 covers that)",
 		"column claim checked on ASCII texts only, as the property says",
@@ -249,8 +249,8 @@ func C03(r *drv.Run) {
 		}}
 	})
 	if r.NViolations() == 0 {
-		if r.MaxOf("largest_line_number") < 2000 || r.MaxOf("largest_column_number") < 5000 || r.MaxOf("largest_offset") < 60000 {
-			r.Inconclusive("coverage floor: the long-input family did not reach line 2000 / column 5000 / offset 60000")
+		if r.MaxOf("largest_line_number") < 2000 || r.MaxOf("largest_column_number") < 5000 || r.MaxOf("largest_offset") < (1<<20) {
+			r.Inconclusive("coverage floor: the long-input family did not reach line 2000 / column 5000 / offset 2^20")
 		}
 		expensiveFloor(r)
 		for _, k := range []string{"matches_spanning_newline", "matches_starting_after_line_1", "string_variables_checked", "matches_with_nested_variable_maps", "replace_matches", "amount_clause_runs_with_matches"} {
@@ -299,8 +299,25 @@ func c03Long(r *drv.Run) {
 		return b
 	}
 	texts = append(texts, mk(0, 3000, 0, 12, "\n"), mk(1, 2500, 3, 30, "\r\n"), mk(2, 1, 6000, 6000, "\n"), mk(3, 3, 70000, 70000, "\n"), mk(4, 40, 1000, 4200, "\n"), mk(5, 5000, 0, 1, "\n"))
+	// inputs beyond a mebibyte, for programs that take them in few steps (one read of the whole input) or linearly
+	nSmall := len(progs)
+	progs = append(progs, struct {
+		src string
+		am  gen.Amount
+	}{"find all whole file", gen.Amount{Kind: "all"}}, struct {
+		src string
+		am  gen.Amount
+	}{"replace all whole file with 'x' endOffset", gen.Amount{Kind: "all"}}, struct {
+		src string
+		am  gen.Amount
+	}{"find all 'b' whitespace 'a'", gen.Amount{Kind: "all"}})
+	bigTexts := [][]byte{mk(6, 1, (1<<20)+37, (1<<20)+37, "\n"), mk(7, 9000, 200, 260, "\n"), mk(8, 2, (1<<20)+300, (1<<20)+300, "\r\n")}
 	r.Exec(len(progs), drv.ExecOpts{Batch: 1}, func(i int) *drv.Item {
 		pr := progs[i]
+		texts := texts
+		if i >= nSmall {
+			texts = bigTexts
+		}
 		c := wire.Case{Op: "run", Src: []byte(pr.src), Texts: texts, StepBudget: 100_000_000}
 		return &drv.Item{Case: c, Check: func(res *wire.Result) {
 			if crashOrGuard(r, res, &c, pr.src, false) {
